@@ -263,6 +263,14 @@ func (s *Server) manifestPut(repoStr, arg string) http.HandlerFunc {
 			s.log.Info("failed to read manifest", "repo", repoStr, "arg", arg, "err", err)
 			return
 		}
+		// a body of unknown length that is longer than the limit must be refused, not stored in a shortened form
+		if int64(len(mRaw)) == s.conf.API.Manifest.Limit {
+			if n, _ := r.Body.Read(make([]byte, 1)); n > 0 {
+				w.WriteHeader(http.StatusRequestEntityTooLarge)
+				_ = types.ErrRespJSON(w, types.ErrInfoManifestInvalid(fmt.Sprintf("manifest too large, limited to %d bytes", s.conf.API.Manifest.Limit)))
+				return
+			}
+		}
 		// verify / set digest
 		dAlgo := digest.Canonical
 		if dExpect != "" {
